@@ -42,6 +42,7 @@ class _Walker:
         self.notifies = []
         self.calls = []       # every self.<method>(…) call: (callee, lexically locked)
         self.accesses = []    # every mention of self.out_window_size: (kind, lexically locked, line)
+        self.sofar = []       # every mention of self.in_window_sofar: (kind, lexically locked, line)
         self.sends = []       # every self.transport._send_user_message / _send_message call: lexically locked?
         self.unlinks = []     # argument of every self.transport._unlink_channel(…) call, as source text
 
@@ -49,6 +50,8 @@ class _Walker:
         for n in ast.walk(node):
             if isinstance(n, ast.Attribute) and n.attr == "out_window_size" and _is_self_attr(n, "out_window_size"):
                 self.accesses.append(("write" if isinstance(n.ctx, ast.Store) else "read", locked, n.lineno))
+            if isinstance(n, ast.Attribute) and n.attr == "in_window_sofar" and _is_self_attr(n, "in_window_sofar"):
+                self.sofar.append(("write" if isinstance(n.ctx, ast.Store) else "read", locked, n.lineno))
             if isinstance(n, ast.Call) and isinstance(n.func, ast.Attribute) and isinstance(n.func.value, ast.Name) \
                     and n.func.value.id == "self":
                 self.calls.append((n.func.attr, locked))
@@ -95,6 +98,8 @@ class _Walker:
                 self.exprs(t, locked)
                 if isinstance(st, ast.AugAssign) and _is_self_attr(t, "out_window_size"):
                     self.accesses.append(("read", locked, st.lineno))
+                if isinstance(st, ast.AugAssign) and _is_self_attr(t, "in_window_sofar"):
+                    self.sofar.append(("read", locked, st.lineno))
             self.exprs(st.value, locked)
             return
         for field in ("body", "orelse", "finalbody"):
@@ -167,6 +172,19 @@ def window_accesses(channel_cls):
     for name, w in walkers.items():
         for kind, lex, _line in w.accesses:
             out.append((name, kind, bool(lex or held[name])))
+    return out
+
+
+def sofar_accesses(channel_cls):
+    """[(method, kind, LEXICALLY inside a self.lock region)] for every mention of self.in_window_sofar in class Channel"""
+    src = textwrap.dedent(inspect.getsource(channel_cls))
+    cls = ast.parse(src).body[0]
+    out = []
+    for fn in cls.body:
+        if isinstance(fn, ast.FunctionDef):
+            w = _Walker(fn.name)
+            w.block(fn.body, False)
+            out += [(fn.name, kind, bool(lex)) for kind, lex, _ in w.sofar]
     return out
 
 
@@ -264,10 +282,10 @@ def lean_tables_for(channel_cls):
     """the whole generated file PV/Generated/ChanLock.lean for this source tree (same content whoever writes it)"""
     sites, notifies = channel_tables(channel_cls)
     return lean_tables(sites, notifies, window_accesses(channel_cls), addressing_counts(channel_cls),
-                       blocking_sends_under_lock(channel_cls))
+                       blocking_sends_under_lock(channel_cls), sofar_accesses(channel_cls))
 
 
-def lean_tables(sites, notifies, accesses=None, addr=None, sends=None):
+def lean_tables(sites, notifies, accesses=None, addr=None, sends=None, sofar=None):
     def b(x):
         return "true" if x else "false"
     out = ["/- GENERATED from the AST of paramiko/channel.py (class Channel) by pv/lib_chanlock.py — do not edit. -/",
@@ -310,5 +328,10 @@ def lean_tables(sites, notifies, accesses=None, addr=None, sends=None):
                 "def unlinkArgs : List String := [%s]" % ", ".join('"%s"' % x for x in unlink_args), "",
                 "/-- … and the method of class Channel each of those calls sits in -/",
                 "def unlinkCallers : List String := [%s]" % ", ".join('"%s"' % x for x in unlink_callers), ""]
+    if sofar is not None:
+        out += ["/-- every mention of self.in_window_sofar: (method, is a write, lexically inside a self.lock region) -/",
+                "def sofarAccesses : List (String × Bool × Bool) := ["]
+        out.append(",\n".join('  ("%s", %s, %s)' % (f, b(k == "write"), b(l)) for f, k, l in sofar))
+        out += ["]", ""]
     out += ["end PV.Generated.ChanLock", ""]
     return "\n".join(out)
